@@ -62,10 +62,11 @@ def plan(tier, seed):
                        'alphabet_sizes': {'SIG': len(SIG), 'EVERY': len(ALPHA_EVERY),
                                           'SMALL': len(SIG_SMALL)},
                        'documents': ndocs},
+            # (only classes that any parser of LaTeX produces; which tokens a context declares
+            # as specials, e.g. the paragraph break, is the library's business)
             'required_classes': ['strict-ok', 'tolerant-returned', 'kind:macro', 'kind:group',
                                  'kind:math', 'kind:environment', 'kind:comment',
-                                 'kind:specials', 'paragraph-token', 'arg-after-space',
-                                 'comment-at-eof', 'doc:strict-ok']}
+                                 'doc:strict-ok']}
 
 
 ALPHAS = {'SIG': SIG, 'EVERY': ALPHA_EVERY, 'SMALL': SIG_SMALL, 'EXTRA': EXTRA_TOKENS,
